@@ -49,3 +49,16 @@ package reconnect
 //@   assert call writeOrDone[github.com/aptpod/iscp-go/transport/reconnect.writeReq]: false   // the write loop never re-enqueues a request
 //@   loop 1 invariant !pending
 //@   ensures done(r.ctx)
+
+// readLoop: control pings are answered via pingCh and never handed up as data.
+//@ func (*Transport).readLoop
+//@   props C18
+//@   ghostvar lastIsPing bool = false
+//@   after call IsPing: lastIsPing = res0
+//@   after call Transport).Read: lastIsPing = false
+//@   assert call writeOrDone[*github.com/aptpod/iscp-go/transport/reconnect.readRes]: imp(arg1.err == nil, !lastIsPing)
+
+// the redial closure made by Dial: same dial config (same transport id), reconnect flag set
+//@ func Dial$1
+//@   props C18
+//@   assert call Dialer).Dial: arg0.Reconnect && arg0.TransportID == c.DialConfig.TransportID && arg0.EncodingName == c.DialConfig.EncodingName
